@@ -202,16 +202,22 @@ def gen_leaf_cases(rng, n):
         vmin = None if r < 0.15 else a
         r = rng.random()
         vmax = None if r < 0.15 else (vmin if (vmin is not None and rng.random() < 0.25) else b)
+        if dom in ("int", "float") and rng.random() < 0.12:
+            # a NaN bound (foreign footer): bounds nothing; stored as the text "nan" in the case
+            if rng.random() < 0.6:
+                vmin = "nan"
+            if rng.random() < 0.6 or vmin != "nan":
+                vmax = "nan"
         if op in ("in", "not in"):
             c = [val() for _ in range(rng.choice([0, 1, 2, 3, 5]))]
             if c and rng.random() < 0.5:
-                c[rng.randrange(len(c))] = rng.choice([x for x in (vmin, vmax, a) if x is not None] or [a])
+                c[rng.randrange(len(c))] = rng.choice([x for x in (vmin, vmax, a) if x is not None and x != "nan"] or [a])
         else:
-            c = rng.choice([val(), vmin if vmin is not None else val(), vmax if vmax is not None else val()])
+            c = rng.choice([val(), vmin if vmin not in (None, "nan") else val(), vmax if vmax not in (None, "nan") else val()])
             if mismatch:          # a scalar constant of the wrong type: both sides raise TypeError (or decide without comparing)
                 c = "a" if dom != "str" else 3
         wrap = [rng.random() < 0.3, rng.random() < 0.3]
-        cases.append({"op": op, "val": c, "vmin": vmin, "vmax": vmax, "arr": wrap})
+        cases.append({"op": op, "val": c, "vmin": vmin, "vmax": vmax, "arr": wrap, "nanb": "nan" in (vmin, vmax) and dom != "str"})
     return cases
 
 
@@ -220,6 +226,8 @@ def leaf_impl(case):
     from fastparquet import api
 
     def w(x, arr):
+        if x == "nan" and case.get("nanb"):
+            x = float("nan")
         if x is None or not arr:
             return x
         return np.array([x]) if not isinstance(x, str) else np.array([x], dtype=object)
@@ -232,6 +240,8 @@ def leaf_impl(case):
 
 def leaf_model_expr(case):
     def w(x, arr):
+        if x == "nan" and case.get("nanb"):
+            return "PNone"               # a NaN bound enters the model as absent (FL.bound_pv)
         t = FL.to_pv(x)
         return "(PArr [%s])" % t if (arr and x is not None) else t
     return "show_res_bool (filter_val (PStr %s) %s %s %s)" % (
@@ -321,6 +331,17 @@ def run(ctx):
         req_model += "From Pq Require Import Impl.FilterLeaf.\n"
         extra_q = []
 
+    # -------- inventory (regenerated from the source on every run): state that outlives one call on the filter path. The only memo the
+    # model knows is the `converted_min/max` item on the chunk's OWN Statistics object; a module-level cache or a memo written onto the
+    # handle / any parameter (keyed by something that need not determine the answer) is a new obligation-breaking offender.
+    try:
+        inv = py2coq.state_inventory(src, ["filter_row_groups", "filter_out_stats", "filter_out_cats", "filter_val"])
+        ctx.extra["state_inventory"] = inv
+        ctx.obligation("gen:memo_only_on_chunk (no module-level mutable state, no memo written onto a parameter, on the code reached from "
+                       "filter_row_groups / filter_out_stats / filter_out_cats / filter_val)",
+                       not inv["module"] and not inv["param_attr_writes"], json.dumps({k: inv[k] for k in ("module", "param_attr_writes")}))
+    except SyntaxError as e:
+        ctx.obligation("gen:memo_only_on_chunk", False, "api.py does not parse: %s" % e)
     C.use_shadow()
     warnings.filterwarnings("ignore")
     rng = ctx.rng
